@@ -64,6 +64,18 @@ theorem C12_search_timer_restarts (s : St) (c : Nat) (ch : Chan) (d : Nat) (hc :
     have : ¬ s.now ≥ d := by omega
     simp [step, hc, ha, hn, ho, this, hack]
 
+/-- the time-out branch of a search's `next()`: nothing queued, the channel still has a sender, the
+deadline of this call has passed and the driver is running — the call returns the timeout error
+and asks the driver to scrub the search's own ID (fix F24); the channel and everything already
+queued in it stay as they are -/
+theorem C12_search_times_out (s : St) (c : Nat) (ch : Chan) (o : Op) (d : Nat) (hc : s.chans[c]? = some ch)
+    (ho : s.ops[ch.opIdx]? = some o) (hack : o.res = some .ack) (ha : ch.rxAlive = true)
+    (hn : ch.items[ch.taken]? = none) (hopen : chanOpen s c = true) (hd : d ≤ s.now) (hr : s.drv = .running) :
+    step s (.recv c (some d)) =
+      some ({ s with scrubQ := s.scrubQ ++ [o.id], chans := s.chans.set c { ch with timedOut := true } }, .timeout) := by
+  have h2 : s.now ≥ d := hd
+  simp [step, hc, ha, hn, hopen, h2, ho, hr, hack]
+
 /-- After the timeout the driver's scrub step touches exactly the timed-out ID: its routing entries
 and its reservation go, every other entry of both maps and every other reserved ID stays. -/
 theorem C12_scrub_frame (s : St) (k : Nat) (rest : List Nat) (hr : s.drv = .running) (hq : s.scrubQ = k :: rest) :
